@@ -165,6 +165,12 @@ def nt_rollback_restored(stats):
     return stats.get('rollbacks', 0) > 0 and stats.get('commits', 0) > 0
 
 
+# Campaigns that combine dimensions no single property quantifies over
+# (thread schedules x injected OS errors).  They are not part of any registered
+# check - a violation there is a lead, not a verdict - and run only when named
+# with --campaign.  c09-threads-oserror found defect F16.
+EXPLORATORY = {}
+
 CAMPAIGNS = {
     'C02': [
         {'name': 'c02-crash-sweep', 'profile': 'C01', 'mode': 'crash-sweep',
@@ -378,7 +384,7 @@ CAMPAIGNS['C09'].append(
          'sampled points per scenario; thorough: all)',
          mode='sched-sweep', nontrivial=nt_threads, chunk=3,
          post='tag_all:C09', sweep_max={'quick': 12, 'thorough': None}))
-CAMPAIGNS['C09'].append(
+EXPLORATORY.setdefault('C09', []).append(
     camp('c09-threads-oserror', 'threads', {'p_tamper': 0.6}, THREAD_RULE +
          '; OSError at every pre-commit mutating call index of the last '
          'build (one thread\'s internal failure must not disturb the others)',
@@ -386,7 +392,7 @@ CAMPAIGNS['C09'].append(
          fault_step='lastbuild', post='tag_all:C09', torn=False,
          errnos=['ENOSPC', 'EACCES'], crash_end=True, weight=0.7,
          sweep_max={'quick': 8, 'thorough': None}, follow=1))
-CAMPAIGNS['C08'].append(
+EXPLORATORY.setdefault('C08', []).append(
     camp('c08-threads-oserror', 'threads',
          {'p_same_key': 1.0, 'p_tamper': 0.6},
          'same key from 2-4 threads with an OSError at every pre-commit '
@@ -585,12 +591,15 @@ for _c in CAMPAIGNS['C12']:
     _c['nontrivial'] = nt_clean
 
 
-def for_property(prop):
-    return CAMPAIGNS.get(prop, [])
+def for_property(prop, include_exploratory=False):
+    camps = list(CAMPAIGNS.get(prop, []))
+    if include_exploratory:
+        camps += EXPLORATORY.get(prop, [])
+    return camps
 
 
 def get(prop, name):
-    for c in CAMPAIGNS[prop]:
+    for c in CAMPAIGNS.get(prop, []) + EXPLORATORY.get(prop, []):
         if c['name'] == name:
             return c
     raise KeyError(name)
